@@ -69,6 +69,13 @@ def extract(g, X):
                ("crypt_v_cf_hi", "N"), ("crypt_v_aesv3", "N"), ("crypt_r_lo", "N"), ("crypt_r_hi", "N"), ("crypt_r_rc4_max", "N"),
                ("crypt_u_len", "N"), ("crypt_o_len", "N"), ("crypt_pw_trunc", "N")], "crypt.rs:from_password dispatch", dispatch)
 
+    def file_key():
+        chk = re.search(r"\.map_err\(\|_\|\s*PdfError::InvalidPassword\)\);\s*if\s+(\w+)\.len\(\)\s*!=\s*(\d+)\s*\{\s*err!", fp)
+        new = re.search(r"Decoder::new\(\s*(\w+)\.into\(\),\s*(\d+),", fp)
+        same(chk.group(1), new.group(1))
+        return chk.group(2), new.group(2)
+    g.attempt([("crypt_fk_len", "N"), ("crypt_fk_size", "N")], "crypt.rs:from_password R5/R6 file key", file_key)
+
     def slices():
         out = []
         ms = re.findall(r"let\s+\w+\s*=\s*&\w+\[(\d+)\.\.(\d+)\];", fp)
